@@ -594,6 +594,39 @@ def rule_group_verdicts(ctx, rep):
         rep.check(got0 == want, rule, name, where, sorted(got0) if isinstance(got0, set) else got0, sorted(want),
                   why="the group verdict does not follow the configured routes (own contract / absolute index / relative offset)",
                   sample={"row": name, "vulnerable": sorted(want)})
+    # order independence: a member cleared through another member must not influence the members listed after it
+    for route in ("abs", "rel"):
+        for order in ("cleared first", "cleared last"):
+            # A: unprotected, cleared only because B checks it (absolute index 1 / offset +1 seen from B); B: checks nothing about itself either
+            a_cfg = {"kind": "logic_sig", "marks": {"self": False, "indices": [0, 1]}, "abs": 1 if route == "abs" else None}
+            b_cfg = {"kind": "logic_sig", "marks": {"self": False, "abs": {1: route == "abs"}, "rel": {1: route == "rel"}, "indices": [0, 1]}, "abs": None}
+            it2 = Interp(TXN.mod)
+            txs = []
+            for cfg in ((a_cfg, b_cfg) if order == "cleared first" else (b_cfg, a_cfg)):
+                t = w.new(TXN)
+                it2.assign_attr(t, "has_logic_sig", True)
+                it2.assign_attr(t, "logic_sig", _leaf_function(ctx, cfg["marks"]))
+                it2.assign_attr(t, "absoulte_index", cfg.get("abs"))
+                txs.append(t)
+            A, Bm = (txs[0], txs[1]) if order == "cleared first" else (txs[1], txs[0])
+            grp = w.new(GRP)
+            it2.assign_attr(grp, "transactions", txs)
+            if route == "rel":
+                w.getattr(Bm, "relative_indexes")[1] = A
+            w.call(fill, grp)
+            tl = Obj(TL, _groups=[grp])
+            tl.fields["groups"] = [grp]
+            try:
+                outp = w.call(f, tl, stateless, pred)
+                vuln = set()
+                for o in outp:
+                    for t in w.getattr(o, "transactions"):
+                        vuln.add("A" if t is A else "B")
+            except PyRaise as e:
+                vuln = f"RAISES {e.exc}"
+            rep.check(vuln == {"B"}, rule, f"member cleared via {route} route, {order}: the unprotected member stays vulnerable", where,
+                      sorted(vuln) if isinstance(vuln, set) else vuln, ["B"],
+                      why="the verdict for one transaction depends on the verdict of the transaction listed before it")
     # for-all over possible own indices when no index is configured
     for idx, at0, at1_, want in (([0, 1], True, True, set()), ([0, 1], True, False, {"T0"}), ([1], False, True, set()), ([], False, False, set())):
         t0 = {"kind": "logic_sig", "marks": {"self": False, "at": {0: at0, 1: at1_}, "indices": idx}, "abs": None}
